@@ -1816,6 +1816,17 @@ def rand_http_program(rng):
         # successive clients: the next one connects when this one is surely finished, or (no stop) while it is active
         t += rng.choice([3000000, 3000000, 50000])
     prog = {"keepalive": keep, "clients": clients}
+    if ncl == 1 and rng.random() < 0.35:
+        # stop() while the only client is connected and still has requests to send (nobody waits in the accept queue)
+        c = clients[0]
+        c["reqs"] = [http_req(rng, close=False) for _ in range(2)] + [http_req(rng, rng.choice(["ok", "unknown", "range"]), rng.random() < 0.7)]
+        for r in c["reqs"]:
+            r.pop("malformed", None)
+        c["cuts"] = [[50, 0], [1, 400000], [30, 0], [10000, 300000]]
+        c["close_after"] = rng.random() < 0.3
+        c["close_delay"] = 2000000
+        prog["stop_at"] = 10 + rng.choice([100000, 300000, 500000, 900000])
+        return prog
     if rng.random() < 0.3:
         # stop() only while no client is waiting to be accepted: after everything, or in a gap before a later client
         prog["stop_at"] = t + 5000000
